@@ -52,6 +52,9 @@ func oneLine(s string, n int) string {
 }
 
 func activeKnown(ids []string) []string {
+	if ignoreKnown {
+		return nil
+	}
 	var out []string
 	seen := map[string]bool{}
 	for _, id := range ids {
@@ -260,6 +263,9 @@ func expectCall(c callCase) callExpect {
 	case whole != nil && whole.St == m16.Any:
 		note(*whole, vi)
 	default:
+		if whole != nil {
+			e.known = append(e.known, whole.Known...)
+		}
 		note(elemWise, vi)
 		a := append([]m16.GV(nil), base...)
 		a[vi] = elemWise.V
@@ -275,6 +281,16 @@ func judgeMode(c callCase, e callExpect, o modeObs, try bool) string {
 	}
 	if o.Panic != "" {
 		return fmt.Sprintf("%s: a Go panic escaped Run: %s", mode, oneLine(o.Panic, 200))
+	}
+	if try && (o.ErrName == "TypeError" || o.ErrName == "RangeError") && len(o.Cb) > 0 && o.Cb[len(o.Cb)-1] == "panic" {
+		// The Go function called its function argument and that call failed. otto re-raises the
+		// failure as a Go error value, which skips the innermost script catch and surfaces as a
+		// TypeError one level further out / from Run. DESIGN (C16, Known) counts that as loud.
+		o.Out = `{"throw":"` + o.ErrName + `","msg":"(surfaced outside the innermost try)"}`
+		o.ErrName = ""
+	}
+	if try && o.ErrName != "" {
+		return fmt.Sprintf("%s: the error went past the script's try/catch and came out of Run: %s", mode, oneLine(o.ErrMsg, 200))
 	}
 	failed, loud, what := false, false, ""
 	if try {
@@ -456,6 +472,16 @@ func checkCall(c callCase) harness.Outcome {
 	}
 	if len(c.Out) > 1 {
 		out.Classes = append(out.Classes, "sig:multi-return")
+	}
+	for i, o := range c.Out { // a float32 behind a pointer comes back as a Number no operator can read
+		t := o.T
+		if o.Echo >= 0 {
+			t = c.In[o.Echo]
+		}
+		if t == "*float32" && e.arityOK && !e.mustFail && !(o.Echo >= 0 && o.Echo < len(c.Args) && (c.Args[o.Echo].K == "null" || c.Args[o.Echo].K == "undef")) {
+			e.known = append(e.known, m16.KF32Reflect)
+		}
+		_ = i
 	}
 	if ak := activeKnown(e.known); len(ak) > 0 {
 		out.Excluded = ak
